@@ -257,6 +257,8 @@ pub struct Obs {
     pub skipped: Vec<u32>,
     /// statement ids the analysis calls unreachable (only when requested)
     pub unreachable: Vec<u32>,
+    /// executed statements + loop iterations of the run (hook counter)
+    pub work_done: u64,
 }
 
 impl Obs {
@@ -311,6 +313,7 @@ impl Obs {
                 e.u32(*x);
             }
         }
+        e.u64(self.work_done);
         e.buf
     }
 
@@ -352,7 +355,8 @@ impl Obs {
             }
         }
         let [executed, skipped, unreachable] = lists;
-        Some(Obs { stage, front, output, runtime, counters, plan, executed, skipped, unreachable })
+        let work_done = d.u64()?;
+        Some(Obs { stage, front, output, runtime, counters, plan, executed, skipped, unreachable, work_done })
     }
 }
 
@@ -363,6 +367,11 @@ pub struct RunOpts {
     pub persistent_cap: usize,
     pub frame_cap: usize,
     pub policy: HostPolicy,
+    /// stop the run with a recognisable panic after this many executed statements + loop iterations
+    pub work_budget: Option<u64>,
+    /// (index of an earlier mode of the same `run_modes` call, factor, slack): tightens the budget
+    /// to factor x that mode's measured work + slack
+    pub work_relative: Option<(usize, u64, u64)>,
 }
 
 impl RunOpts {
@@ -373,6 +382,8 @@ impl RunOpts {
             persistent_cap: 256 * MEBI,
             frame_cap: 256 * MEBI,
             policy: HostPolicy { allow_process: false, ..HostPolicy::default() },
+            work_budget: None,
+            work_relative: None,
         }
     }
 }
@@ -392,6 +403,7 @@ pub fn run_source(src: &str, opts: RunOpts) -> Obs {
         executed: Vec::new(),
         skipped: Vec::new(),
         unreachable: Vec::new(),
+        work_done: 0,
     };
 
     let lexer = Lexer::new(src, &arena);
@@ -436,6 +448,9 @@ pub fn run_source(src: &str, opts: RunOpts) -> Obs {
         policy,
     );
     naijascript::verif::reset(opts.log_stmts);
+    if let Some(b) = opts.work_budget {
+        naijascript::verif::set_work_budget(b);
+    }
     let plan = if opts.mode.plan { resolver.optimization_plan.as_ref() } else { None };
     runtime.run_with_analysis(root, &resolver.facts, plan);
     let c = naijascript::verif::counters();
@@ -452,6 +467,7 @@ pub fn run_source(src: &str, opts: RunOpts) -> Obs {
     }
     obs.output = runtime.output.iter().map(NVal::from_value).collect();
     obs.runtime = collect_diags(&runtime.errors);
+    obs.work_done = naijascript::verif::work_done();
     obs
 }
 
@@ -512,6 +528,7 @@ pub fn run_source_shared_measured(src: &str, modes: &[RunOpts], want_measures: b
         executed: Vec::new(),
         skipped: Vec::new(),
         unreachable: Vec::new(),
+        work_done: 0,
     };
     let lexer = Lexer::new(src, &arena);
     let mut parser = Parser::new(lexer, &arena);
@@ -541,6 +558,9 @@ pub fn run_source_shared_measured(src: &str, modes: &[RunOpts], want_measures: b
         let mut runtime =
             Runtime::new_with_host_policy(&arena, if opts.mode.frame { Some(&frame) } else { None }, opts.policy);
         naijascript::verif::reset(false);
+        if let Some(b) = opts.work_budget {
+            naijascript::verif::set_work_budget(b);
+        }
         let plan = if opts.mode.plan { resolver.optimization_plan.as_ref() } else { None };
         runtime.run_with_analysis(root, &resolver.facts, plan);
         let c = naijascript::verif::counters();
@@ -553,6 +573,7 @@ pub fn run_source_shared_measured(src: &str, modes: &[RunOpts], want_measures: b
         };
         obs.output = runtime.output.iter().map(NVal::from_value).collect();
         obs.runtime = collect_diags(&runtime.errors);
+        obs.work_done = naijascript::verif::work_done();
         out.push(obs);
     }
     // after the runs: a run-time divergence is reported as such
@@ -595,11 +616,21 @@ pub fn run_modes(
     let mut next = 0usize;
     while next < modes.len() {
         let todo = &modes[next..];
+        // work measured so far, by mode index (crashed modes: unknown)
+        let mut done: Vec<Option<u64>> = results.iter().map(|r| r.obs().map(|o| o.work_done)).collect();
         let iso = crate::isolate::run(
             crate::isolate::Opts { timeout, keep_stdio: false },
             |out| {
                 for m in todo {
-                    let obs = run_source(src, *m);
+                    let mut m = *m;
+                    if let Some((base, factor, slack)) = m.work_relative
+                        && let Some(Some(w)) = done.get(base)
+                    {
+                        let rel = w.saturating_mul(factor).saturating_add(slack);
+                        m.work_budget = Some(m.work_budget.map_or(rel, |b| b.min(rel)));
+                    }
+                    let obs = run_source(src, m);
+                    done.push(Some(obs.work_done));
                     out.frame(&obs.encode());
                 }
             },
